@@ -454,7 +454,7 @@ Section RoundProofs.
       assert (Hin : In (it_id e, it_body e) (content (repl st))).
       { unfold content. apply in_map_iff. exists e. split; [reflexivity|]. apply in_repl. auto. }
       apply Heq in Hin. unfold content in Hin. apply in_map_iff in Hin as [y [Hkb Hy]].
-      apply in_repl in Hy as [Hyr [Hly _]]. apply Hn. inversion Hkb as [[Hid Hb]]. rewrite <- Hid.
+      apply in_repl in Hy as [Hyr [Hly _]]. injection Hkb as Hid Hb. apply Hn. rewrite <- Hid.
       apply in_map. apply filter_In. split; assumption.
     - intros y Hy. destruct (applies (it_id y)) eqn:Ha; [|reflexivity]. exfalso.
       apply (in_ups_iff keqb kltb is_empty same_hash keqb_spec kltb_irrefl kltb_trans kltb_total
@@ -463,7 +463,7 @@ Section RoundProofs.
       assert (Hin : In (it_id y, it_body y) (content (repl remote))).
       { unfold content. apply in_map_iff. exists y. split; [reflexivity|]. apply in_repl. auto. }
       apply Heq in Hin. unfold content in Hin. apply in_map_iff in Hin as [x [Hkb Hx]].
-      apply in_repl in Hx as [Hxst [Hlx [_ Hgx]]]. inversion Hkb as [[Hid Hb]].
+      apply in_repl in Hx as [Hxst [Hlx [_ Hgx]]]. injection Hkb as Hid Hb.
       assert (Hxv : In x (filter live (view st))) by (apply in_live_view; auto).
       unfold WalkProofs.upd_needed in Hupd.
       rewrite <- Hid, (findk_in keqb keqb_spec _ x Hview Hxv) in Hupd.
